@@ -7,7 +7,7 @@ import seeded
 def main(ids):
     for pid in ids:
         src = f"/tmp/seed/{pid}/out"
-        for k in (1, 2, 3, 4, 5, 6, 7, 8, 9, "a", "b", "c", "d", "e", "f", "g"):
+        for k in (1, 2, 3, 4, 5, 6, 7, 8, 9, "a", "b", "c", "d", "e", "f", "g", "h", "i"):
             p, d, m = (os.path.join(src, f"{n}{k}.{e}") for n, e in (("patch", "diff"), ("demo", "py"), ("meta", "json")))
             if not (os.path.exists(p) and os.path.exists(d)):
                 continue
